@@ -104,7 +104,7 @@ _whole.install(globals(), "C04",
                note="The whole-run budget-prefix corollary is closed by the differential ladders (partial: the theorem covers the cutoff wrapper's forwarding law, C16). " + _whole.HIST_NOTE,
                technique="Coq theorems on best-of / selection models + history-machine invariant + vm_compute trace replay + brute-force monitor and budget ladders on the real package",
                front_ends=["accessors", "order"], quick=200, thorough=5000, nontrivial=nontrivial, machine_replay=False, hist_replay=True, extra_checks=[budgets, cache_pairs],
-               forces=[(3, {"cap_evals": 900}), (1, {"cap_evals": 900, "maximize": True}), (1, {"cap_evals": 900, "height": 2, "engines": ["SEA", "CMA"]}),
+               forces=[(3, {"cap_evals": 900}), (1, {"cap_evals": 900, "looking_gsc": True}), (1, {"cap_evals": 900, "maximize": True}), (1, {"cap_evals": 900, "height": 2, "engines": ["SEA", "CMA"]}),
                        # objectives undefined (NaN) on part of the box, both directions: the best is the best NUMBER kept
                        (1, {"cap_evals": 600, "objective_kind": "nanhole", "box": [[-5.0, 5.0], [-5.0, 5.0]], "dim": 2, "maximize": True}),
                        (1, {"cap_evals": 600, "objective_kind": "nanhole", "box": [[-5.0, 5.0], [-5.0, 5.0]], "dim": 2, "maximize": False})])
